@@ -332,6 +332,8 @@ def enabled(history, ndirs, retry=()):
                 out.append(('FAIL', x, d))
             elif st == 'failed' and x in retry and tries[(x, d)] < 2:
                 out.append(('U', x, d))         # Tor tries that directory again
+            elif st == 'done' and x in retry and tries[(x, d)] < 2 and d == 1:
+                out.append(('U', x, d))         # Tor publishes again to a directory that has the descriptor (its intro points changed)
     return out
 
 
